@@ -35,6 +35,9 @@ func sliceArrayOperator(d *dataTreeNavigator, context Context, expressionNode *E
 		relativeFirstNumber := firstNumber
 		if relativeFirstNumber < 0 {
 			relativeFirstNumber = len(lhsNode.Content) + firstNumber
+			if relativeFirstNumber < 0 {
+				relativeFirstNumber = 0
+			}
 		}
 
 		secondNumber, err := getSliceNumber(d, context, lhsNode, expressionNode.RHS)
@@ -45,6 +48,9 @@ func sliceArrayOperator(d *dataTreeNavigator, context Context, expressionNode *E
 		relativeSecondNumber := secondNumber
 		if relativeSecondNumber < 0 {
 			relativeSecondNumber = len(lhsNode.Content) + secondNumber
+			if relativeSecondNumber < 0 {
+				relativeSecondNumber = 0
+			}
 		} else if relativeSecondNumber > len(lhsNode.Content) {
 			relativeSecondNumber = len(lhsNode.Content)
 		}
